@@ -342,6 +342,75 @@ func runC08(env *Env) {
 		}
 	}
 	rec(nil)
+	// two tokens pending in one task: the answers (results, error, handler decision) of one request must not
+	// leak into the other's. Token 1 answers with an error whose handler decides later; token 2 answers with
+	// r = "two"; the next task sets r = "three"; then the handler says skip: r must stay "three".
+	for _, mode := range []bpmn.ErrHandleMode{bpmn.SkipMode, bpmn.ExitMode} {
+		if rep.Saturated() {
+			break
+		}
+		cs := fmt.Sprintf("two requests pending in one task; first: error with a handler deciding %v after the second was answered with results", mode)
+		env.Current(cs)
+		p := &Prog{}
+		p.Node("start", "start")
+		p.Node("par", "F")
+		t := p.Node("task", "T")
+		t.Results = []string{"r"}
+		u := p.Node("task", "U")
+		u.Results = []string{"r"}
+		p.Node("end", "end")
+		p.Flow("start", "F", "")
+		p.Flow("F", "T", "")
+		p.Flow("F", "T", "")
+		p.Flow("T", "U", "")
+		p.Flow("U", "end", "")
+		defs, err := ParseDefs(p.XML(""))
+		must(err)
+		in, err := StartInst(defs, InstOpt{Vars: map[string]any{"r": "zero"}})
+		must(err)
+		rep.Evaluations++
+		rep.Nontrivial++
+		rep.Count("two_pending_requests")
+		if !in.WaitUntil(tmoStep, func(l []Ev) bool { return countEv(l, "task", "T") >= 2 }) {
+			rep.Violate("C08-results", cs, "the task was not requested twice; log: "+logString(in.Log()))
+			in.Close()
+			continue
+		}
+		t1 := in.WaitTask("T", tmoStep)
+		t2 := in.WaitTask("T", tmoStep)
+		ch := make(chan bpmn.ErrHandler, 1)
+		t1.Do(bpmn.DoWithErrHandle(errors.New("boom"), ch))
+		in.WaitUntil(tmoStep, func(l []Ev) bool { return countEv(l, "error", "*") >= 1 })
+		t2.Do(bpmn.DoWithResults(map[string]any{"r": "two"}))
+		if !in.WaitUntil(tmoStep, func(l []Ev) bool { return countEv(l, "task", "U") >= 1 }) {
+			rep.Violate("C08-results", cs, "the second request's answer did not continue; log: "+logString(in.Log()))
+			in.Close()
+			continue
+		}
+		u1 := in.WaitTask("U", tmoStep)
+		u1.Do(bpmn.DoWithResults(map[string]any{"r": "three"}))
+		in.WaitUntil(tmoStep, func(l []Ev) bool { return countEv(l, "leave", "U") >= 1 })
+		ch <- bpmn.ErrHandler{Mode: mode}
+		wantU := 1
+		if mode == bpmn.SkipMode {
+			wantU = 2
+			if in.WaitUntil(tmoStep, func(l []Ev) bool { return countEv(l, "task", "U") >= 2 }) {
+				if u2 := in.WaitTask("U", tmoStep); u2 != nil {
+					u2.Do()
+				}
+			}
+		}
+		done := in.WaitCease(tmoStep)
+		time.Sleep(settle)
+		v, _ := in.P.Locator().GetVariable("r")
+		if fmt.Sprint(v) != "three" {
+			rep.Violate("C08-results", cs, fmt.Sprintf("variable r = %q at the end, expected \"three\": the skipped/exited request stored results that were not its own; log: %s", fmt.Sprint(v), logString(in.Log())))
+		}
+		if got := countEv(in.Log(), "task", "U"); got != wantU || !done {
+			rep.Violate("C08-modes", cs, fmt.Sprintf("next task requested %d times (expected %d), completed=%v; log: %s", got, wantU, done, logString(in.Log())))
+		}
+		in.Close()
+	}
 	env.WriteCases(rep, "_modes", "Corr.C08corr", "list nat * nat * nat * nat", citems, "c08_modes_mismatches")
 	env.WriteReport(rep)
 }
